@@ -2,7 +2,7 @@
 
 ENTRY = {'coq_dir': 'C15',
  'harness': 'c15',
- 'cases': {'quick': 1500, 'thorough': 30000},
+ 'cases': {'quick': 1500, 'thorough': 100000},
  'consts': ['REPLICATION_FACTOR', 'PARALLELISM_FACTOR', 'DEFAULT_PEER_TIMEOUT_SECS'],
  'nontrivial_min_trace': 30,
  'rule': 'eight streams against the real QueryEngine: (1) N seeded random networks on <= 8 peers (who knows whom incl. self/local/duplicates, '
@@ -81,12 +81,12 @@ ENTRY = {'coq_dir': 'C15',
                '_terminal_removes, _stale_ignored); calls for another query leave a query untouched (C15_eng_frame); every register_peer_failure '
                'resolves the request/target in every query type, every register_response of ANY message kind and every response failure resolves a '
                'lookup request, every send notification resolves a send-phase target (C15_eng_resolves); a lookup accepts exactly the reply kind of '
-               'its own request (C15_accepts_lookup) and sends exactly that request (C15_eng_send_kind); FindNodeQuerySucceeded / '
-               'PutRecordToFoundNodes / AddProviderToFoundNodes hand over the k closest responders of the recorded history with the original quorum, '
-               'PutRecordToPeers exactly the given peers at its first poll (C15_eng_handover, C15_eng_to_peers); a send phase yields its one '
-               'terminal action exactly when every target was reported on, success iff acknowledged sends >= clamped quorum '
-               '(C15_eng_send_phase_terminates, _waits). DISTANCES: dist_inj is a theorem for the XOR metric (C15_xor_dist_inj) and ranks are as '
-               'good as real distances (C15_rank_invariance).',
+               'its own request (C15_accepts_lookup) and sends exactly that request, to a peer that is neither local nor already contacted by that '
+               'query (C15_eng_send_kind, C15_eng_send_fresh); FindNodeQuerySucceeded / PutRecordToFoundNodes / AddProviderToFoundNodes hand over '
+               'the k closest responders of the recorded history with the original quorum, PutRecordToPeers exactly the given peers at its first '
+               'poll (C15_eng_handover, C15_eng_to_peers); a send phase yields its one terminal action exactly when every target was reported on, '
+               'success iff acknowledged sends >= clamped quorum (C15_eng_send_phase_terminates, _waits). DISTANCES: dist_inj is a theorem for the '
+               'XOR metric (C15_xor_dist_inj) and ranks are as good as real distances (C15_rank_invariance).',
  'level_note': 'Trusted: Coq kernel, ExtrOcamlBasic extraction, harness and hooks, the regex-level table translator; SHA-256 gives distinct keys to '
                'distinct peers; the real Instant arithmetic is only sampled (the logical clock is a hook); HashMap polling order of a shared engine '
                'is an input of the model (every order is covered by the isolation / frame theorems); the request timeout itself (executor.rs) is '
@@ -108,12 +108,12 @@ ENTRY = {'coq_dir': 'C15',
                  'engine theorems: none - they quantify over all histories from the empty engine (start of any type with any id, any entry point for '
                  'any id)'],
  'clause_map': [['never contacts the local node',
-                 'C15_never_twice_never_local, C15_disjoint, C15_send_closest (p <> local); engine: C15_eng_send_kind + C15_eng_lookup_is_model '
-                 '(every engine send is a Model.v send)',
+                 'C15_never_twice_never_local, C15_disjoint, C15_send_closest (p <> local); engine level: C15_eng_send_fresh, C15_eng_send_kind, '
+                 'C15_eng_lookup_is_model (every engine send is a fresh Model.v send)',
                  'streams 1-3 (oracle: ASend p with p = local rejected), engine stream 4 (same oracle per query id)'],
                 ['never contacts the same peer twice',
-                 'C15_never_twice_never_local (NoDup sends), C15_resolved_once, C15_peer_action (next_peer_action only repeats an outstanding '
-                 'request)',
+                 'C15_never_twice_never_local (NoDup sends), C15_eng_send_fresh (engine level), C15_resolved_once, C15_peer_action (next_peer_action '
+                 'only repeats an outstanding request)',
                  'streams 1-4 (oracle: o_sent), seeded/C15 (self-listing responder) caught'],
                 ['keeps at most the configured number of fresh unanswered requests in flight',
                  'C15_parallelism, C15_send_gate, C15_pr_irrelevant',
